@@ -65,7 +65,7 @@ type dev struct {
 func main() {
 	r := mc.NewRun("C06")
 	k := mc.Pick(r, 3, 4)
-	r.Rule(fmt.Sprintf("E5 deviation lattice: a baseline request (both technologies, all GCE VMSA counts, Milan, no shapes) plus every subset of <=%d of the deviations {technology subsets, VMSA count 1/2/5/240, Genoa / unknown product, shape lists (single, pair, duplicate, unknown shape, upper-case and blank-prefixed spellings), early accept, SVN, family/image ids valid/invalid, SVSM measurement, commit instead of changelist, timestamps, image valid for one technology only / neither}; non-trivial = distinct requests for which a document was produced and every entry matched the reference", k))
+	r.Rule(fmt.Sprintf("E5 deviation lattice: a baseline request (both technologies, all GCE VMSA counts, Milan, no shapes) plus every subset of <=%d of the deviations {technology subsets, VMSA count 1/2/5/240, Genoa / unknown product, shape lists (single, pair, duplicate, unknown shape, upper-case and blank-prefixed spellings), early accept, SVN, family/image ids valid/invalid, SVSM measurement, commit instead of changelist, timestamps, image valid for one technology only / neither, a 133-page firmware}; non-trivial = distinct requests for which a document was produced and every entry matched the reference", k))
 	auth, err := fx.NewAuthority(fx.T0, "c06")
 	if err != nil {
 		mc.Fatal("%v", err)
